@@ -96,8 +96,8 @@ open J5V.Go J5V.Json
 /-- `t` is the encoding of `v` for field schema `fld`, as far as the three decoding contexts
 (property value, array element, map value) are concerned -/
 structure Dec (c : Cfg) (fld : Field) (v : PVal) (t : PTree) : Prop where
-  prop : ∀ (props : List PropDef) (p : PropDef) (k : Nat) (st : PS),
-      p.field = fld → p.path = [k] → p.jsonName ∉ st.seen → aget k st.m = none →
+  prop : ∀ (props : List PropDef) (p : PropDef) (st : PS),
+      p.field = fld → p.path ≠ [] → p.jsonName ∉ st.seen → getPath st.m p.path = none →
       groupBusy props p st.m = false →
       decProp c props p t st =
         .ok { m := updPath props p (some v) st.m, seen := p.jsonName :: st.seen }
@@ -129,10 +129,10 @@ theorem Dec_scalar (c : Cfg) (L : OracleLaws c.O) (k : ScalarKind) (v : PVal) (t
   obtain ⟨t', tok, ht', hsn, hgt, hdec⟩ := scalarNode_roundtrip c.O L k v hok
   rw [ht] at ht'; cases ht'
   refine ⟨?_, ?_, ?_⟩
-  · intro props p kk st hf hp hs hg hgb
+  · intro props p st hf hp hs hg hgb
     unfold decProp; rw [hf]; simp only []
     unfold decScalarProp
-    have hne : p.path.isEmpty = false := by rw [hp]; rfl
+    have hne : p.path.isEmpty = false := by cases hpp : p.path with | nil => exact absurd hpp hp | cons a b => rfl
     cases t <;> simp only [isScalarNode, Bool.false_eq_true] at hsn <;>
       simp [createField_fresh props p st hs hgb, Outcome.bind, hne, hgt, hdec]
   · intro _ rest acc
@@ -239,10 +239,10 @@ theorem Dec_enum (c : Cfg) (ref : String) (pfx : Bytes) (opts : List (Bytes × I
     (hlook : enumOptionByName pfx opts name = some n) :
     Dec c (.enum ref) (.enum n) (.str name lit) := by
   refine ⟨?_, ?_, ?_⟩
-  · intro props p kk st hf hp hs hg hgb
+  · intro props p st hf hp hs hg hgb
     unfold decProp; rw [hf]; simp only []
     unfold decEnumProp
-    have hne : p.path.isEmpty = false := by rw [hp]; rfl
+    have hne : p.path.isEmpty = false := by cases hpp : p.path with | nil => exact absurd hpp hp | cons a b => rfl
     simp [createField_fresh props p st hs hgb, Outcome.bind, hne, hfind, hlook]
   · intro _ rest acc
     conv => lhs; unfold decElems
@@ -253,24 +253,25 @@ theorem Dec_enum (c : Cfg) (ref : String) (pfx : Bytes) (opts : List (Bytes × I
 
 /-! ## objects and oneofs, given the member loops -/
 
-theorem subStart_fresh (p : PropDef) (k : Nat) (st1 : PS) (hp : p.path = [k]) (hg : aget k st1.m = none) :
+theorem subStart_fresh (p : PropDef) (st1 : PS) (hg : getPath st1.m p.path = none) :
     subStart p st1 = { m := [], seen := [] } := by
-  unfold subStart; rw [hp]; simp [getPath, hg, PVal.asMsg]
+  unfold subStart; rw [hg]; rfl
 
-theorem oneofStart_fresh (p : PropDef) (k : Nat) (st1 : PS) (hp : p.path = [k]) (hg : aget k st1.m = none) :
+theorem oneofStart_fresh (p : PropDef) (st1 : PS) (hp : p.path.isEmpty = false)
+    (hg : getPath st1.m p.path = none) :
     oneofStart p st1 = { m := [], seen := [] } := by
-  unfold oneofStart; rw [hp]; simp [getPath, hg, PVal.asMsg]
+  unfold oneofStart; rw [hp, hg]; rfl
 
 theorem Dec_object (c : Cfg) (ref : String) (sub : List PropDef) (fs : Fields) (ms : PMembers)
     (S : List Bytes) (hfind : c.env.find ref = some (.object sub))
     (hdec : decObjMembers c sub ms { m := [], seen := [] } = .ok ({ m := fs, seen := S }, .closed)) :
     Dec c (.object ref) (.msg fs) (.obj ms) := by
   refine ⟨?_, ?_, ?_⟩
-  · intro props p kk st hf hp hs hg hgb
+  · intro props p st hf hp hs hg hgb
     unfold decProp; rw [hf]; simp only []
-    have hne : p.path.isEmpty = false := by rw [hp]; rfl
+    have hne : p.path.isEmpty = false := by cases hpp : p.path with | nil => exact absurd hpp hp | cons a b => rfl
     simp only [createField_fresh props p st hs hgb, Outcome.bind, hne, hfind]
-    rw [subStart_fresh p kk { m := st.m, seen := p.jsonName :: st.seen } hp hg, hdec]
+    rw [subStart_fresh p { m := st.m, seen := p.jsonName :: st.seen } hg, hdec]
     simp [finishObjectProp, Outcome.bind, closeOk]
   · intro _ rest acc
     conv => lhs; unfold decElems
@@ -286,11 +287,11 @@ theorem Dec_oneof (c : Cfg) (ref : String) (ops : List PropDef) (fs : Fields) (m
     (hm : st'.m = fs) (hpost : oneofPost ops found ct fs = .ok none) :
     Dec c (.oneof ref) (.msg fs) (.obj ms) := by
   refine ⟨?_, ?_, ?_⟩
-  · intro props p kk st hf hp hs hg hgb
+  · intro props p st hf hp hs hg hgb
     unfold decProp; rw [hf]; simp only []
-    have hne : p.path.isEmpty = false := by rw [hp]; rfl
+    have hne : p.path.isEmpty = false := by cases hpp : p.path with | nil => exact absurd hpp hp | cons a b => rfl
     simp only [createField_fresh props p st hs hgb, Outcome.bind, hfind]
-    rw [oneofStart_fresh p kk { m := st.m, seen := p.jsonName :: st.seen } hp hg, hdec]
+    rw [oneofStart_fresh p { m := st.m, seen := p.jsonName :: st.seen } hne hg, hdec]
     simp [finishOneofProp, Outcome.bind, closeOk, hpost, applyPost, hne, hm]
   · intro _ rest acc
     conv => lhs; unfold decElems
@@ -365,24 +366,24 @@ theorem decElems_all (c : Cfg) (item : Field) (hi : itemSimple item = true) (g :
 theorem itemCheck_simple (item : Field) (hi : itemSimple item = true) : itemCheck item = .ok () := by
   cases item <;> simp [itemSimple] at hi <;> rfl
 
-theorem listStart_fresh (p : PropDef) (k : Nat) (st1 : PS) (hp : p.path = [k]) (hg : aget k st1.m = none) :
+theorem listStart_fresh (p : PropDef) (st1 : PS) (hg : getPath st1.m p.path = none) :
     listStart p st1 = [] := by
-  unfold listStart; rw [hp]; simp [getPath, hg]
+  unfold listStart; rw [hg]
 
-theorem mapStart_fresh (p : PropDef) (k : Nat) (st1 : PS) (hp : p.path = [k]) (hg : aget k st1.m = none) :
+theorem mapStart_fresh (p : PropDef) (st1 : PS) (hg : getPath st1.m p.path = none) :
     mapStart p st1 = [] := by
-  unfold mapStart; rw [hp]; simp [getPath, hg]
+  unfold mapStart; rw [hg]
 
 theorem Dec_array (c : Cfg) (item : Field) (hi : itemSimple item = true) (xs : List PVal)
     (ts : List PTree)
     (hdec : decElems c item (elemsOf ts) [] = .ok (xs, .closed)) :
     Dec c (.array item) (.list xs) (.arr (elemsOf ts)) := by
   refine ⟨?_, by intro h; simp [itemSimple] at h, by intro h; simp [itemSimple] at h⟩
-  intro props p kk st hf hp hs hg hgb
+  intro props p st hf hp hs hg hgb
   unfold decProp; rw [hf]; simp only []
-  have hne : p.path.isEmpty = false := by rw [hp]; rfl
+  have hne : p.path.isEmpty = false := by cases hpp : p.path with | nil => exact absurd hpp hp | cons a b => rfl
   simp only [createField_fresh props p st hs hgb, Outcome.bind, hne, itemCheck_simple item hi]
-  rw [listStart_fresh p kk { m := st.m, seen := p.jsonName :: st.seen } hp hg, hdec]
+  rw [listStart_fresh p { m := st.m, seen := p.jsonName :: st.seen } hg, hdec]
   simp [finishArrayProp, Outcome.bind, closeOk]
 
 /-! ## maps -/
@@ -469,21 +470,22 @@ theorem mapOk_cons (env : Env) (O : Oracle) (item : Field) (seen : List Bytes) (
   exact ⟨by simpa using h.1.1.1, h.1.1.2, h.1.2, h.2⟩
 
 theorem decMapMembers_all (c : Cfg) (item : Field) (hi : itemSimple item = true)
-    (g : PVal → Outcome PTree)
-    (hdec : ∀ x t, valOk c.env c.O item x = true → g x = .ok t → Dec c item x t) :
+    (g : PVal → Outcome PTree) :
     ∀ (kvs : List (Bytes × PVal)) (es : List (Bytes × Bytes × PTree)) (acc : List (Bytes × PVal))
-      (seen : List Bytes), AllEncMap g kvs es → mapOk c.env c.O item seen kvs = true →
+      (seen : List Bytes),
+      (∀ kv ∈ kvs, ∀ t, valOk c.env c.O item kv.2 = true → g kv.2 = .ok t → Dec c item kv.2 t) →
+      AllEncMap g kvs es → mapOk c.env c.O item seen kvs = true →
       (∀ k, k ∉ seen → mget k acc = none) →
       decMapMembers c item (membersOf es) acc = .ok (acc ++ kvs, .closed) := by
   intro kvs
   induction kvs with
   | nil =>
-    intro es acc seen h _ _
+    intro es acc seen _ h _ _
     cases es with
     | nil => simp [membersOf, decMapMembers]
     | cons e es => obtain ⟨a, b, c'⟩ := e; exact absurd h (by simp [AllEncMap])
   | cons kv kvs ih =>
-    intro es acc seen h hok hacc
+    intro es acc seen hdec h hok hacc
     obtain ⟨k, v⟩ := kv
     cases es with
     | nil => exact absurd h (by simp [AllEncMap])
@@ -493,8 +495,8 @@ theorem decMapMembers_all (c : Cfg) (item : Field) (hi : itemSimple item = true)
       obtain ⟨hks, _, hvok, hok'⟩ := mapOk_cons _ _ _ _ _ _ _ hok
       have hm : mget k' acc = none := hacc k' hks
       simp only [membersOf]
-      rw [(hdec v t hvok hg).mapv hi k' lit _ acc hm, mset_append k' v acc hm,
-        ih es _ (k' :: seen) hrest hok']
+      rw [(hdec (k', v) List.mem_cons_self t hvok hg).mapv hi k' lit _ acc hm, mset_append k' v acc hm,
+        ih es _ (k' :: seen) (fun kv hkv => hdec kv (List.mem_cons_of_mem _ hkv)) hrest hok']
       · simp
       · intro k2 hk2
         simp only [List.mem_cons, not_or] at hk2
@@ -505,11 +507,11 @@ theorem Dec_map (c : Cfg) (item : Field) (hi : itemSimple item = true) (kvs : Li
     (hdec : decMapMembers c item (membersOf es) [] = .ok (kvs, .closed)) :
     Dec c (.map item) (.map kvs) (.obj (membersOf es)) := by
   refine ⟨?_, by intro h; simp [itemSimple] at h, by intro h; simp [itemSimple] at h⟩
-  intro props p kk st hf hp hs hg hgb
+  intro props p st hf hp hs hg hgb
   unfold decProp; rw [hf]; simp only []
-  have hne : p.path.isEmpty = false := by rw [hp]; rfl
+  have hne : p.path.isEmpty = false := by cases hpp : p.path with | nil => exact absurd hpp hp | cons a b => rfl
   simp only [createField_fresh props p st hs hgb, Outcome.bind, hne, itemCheck_simple item hi]
-  rw [mapStart_fresh p kk { m := st.m, seen := p.jsonName :: st.seen } hp hg, hdec]
+  rw [mapStart_fresh p { m := st.m, seen := p.jsonName :: st.seen } hg, hdec]
   simp [finishMapProp, Outcome.bind, closeOk]
 
 end J5V.Codec
